@@ -688,7 +688,9 @@ func (v Value) convert(t Type) (res Value) {
 			return v
 		}
 		if v.t == TypeNil {
-			return Value{t: sliceType(TypeUint8)} // []byte(nil) is the nil slice
+			// the bare slice type is the slice of any: []any(nil) is the nil []any
+			// ([]byte(nil) and every other []T(nil) carry their element type, see below)
+			return Value{t: TypeSlice}
 		}
 		data := []byte(v.String())
 		s := make([]Value, len(data))
